@@ -458,6 +458,19 @@ func valPredProp(c ValPredCase, r *pbt.R) error {
 		if !sameMap(fmArg, es) {
 			return fmt.Errorf("%s: FilterMap changed the map it was given: it now reads %v", where(), fmArg)
 		}
+		// the selection is a map of its own: what is done to it afterwards does not reach the map it was taken from
+		if sel := gogu.FilterMap(fmArg, p); sel != nil {
+			sel[-12345] = 1
+			for k := range sel {
+				if k != -12345 {
+					delete(sel, k)
+					break
+				}
+			}
+			if !sameMap(fmArg, es) {
+				return fmt.Errorf("%s: editing the map FilterMap returned changed the map it was given: it now reads %v", where(), fmArg)
+			}
+		}
 		got := gogu.Find(build(es, rep), p)
 		if some && !sameMap(got, q[:1]) {
 			return fmt.Errorf("%s: Find = %v, want the qualifying entry with the smallest key %s", where(), got, show(q[:1]))
@@ -1414,6 +1427,76 @@ func order(es []P, rep int) []P {
 const scopeRuns = "Every case is executed 3 times on fresh maps built in 3 insertion orders (Go randomises the iteration start). " +
 	"Distinct = enumerated cases (injective encoding) + hash-distinct random cases outside the enumerated scope (a key or value outside its domain, or a longer collection)."
 
+// ---------------------------------------------------------------------------
+// the map helpers are pure: concurrent callers, each with maps of their own, get what they get alone
+
+type ParCase struct {
+	H    int `json:"h"`
+	Size int `json:"size"`
+	W    int `json:"workers"`
+}
+
+var parNames = []string{"Find", "Keys+Values(sorted)", "FilterMap", "PickBy+OmitBy(copy)", "Invert(injective)", "MapValues", "MapKeys", "Pluck", "FilterMapCollection", "SliceToMap"}
+
+func parMap(w, size int) map[int]int {
+	m := make(map[int]int, size)
+	for i := 0; i < size; i++ {
+		m[i*3+w] = (i*i + w) % 89
+	}
+	return m
+}
+
+func parProp(c ParCase, r *pbt.R) error {
+	h := ((c.H % len(parNames)) + len(parNames)) % len(parNames)
+	size := 16 + ((c.Size%3000)+3000)%3000
+	workers := 2 + ((c.W%7)+7)%7
+	f := func(w int) string {
+		m := parMap(w, size)
+		switch h {
+		case 0:
+			return fmt.Sprint(gogu.Find(m, func(v int) bool { return v%7 == w%7 }))
+		case 1:
+			k, v := gogu.Keys(m), gogu.Values(m)
+			sort.Ints(k)
+			sort.Ints(v)
+			return pbt.Digest(k) + pbt.Digest(v)
+		case 2:
+			return pbt.Digest(gogu.FilterMap(m, func(v int) bool { return v%2 == 0 }))
+		case 3:
+			cp := parMap(w, size)
+			return pbt.Digest(gogu.PickBy(m, func(k, v int) bool { return (k+v)%3 == 0 })) + pbt.Digest(gogu.OmitBy(cp, func(k, v int) bool { return (k+v)%3 == 0 }))
+		case 4:
+			inj := make(map[int]int, size)
+			for k := range m {
+				inj[k] = k*2 + 1
+			}
+			return pbt.Digest(gogu.Invert(inj))
+		case 5:
+			return pbt.Digest(gogu.MapValues(m, func(v int) int { return v*2 + w }))
+		case 6:
+			return pbt.Digest(gogu.MapKeys(m, func(k, _ int) int { return k + 1 }))
+		case 7:
+			ms := []map[int]int{m, {1: 2}, parMap(w+1, 30)}
+			return pbt.Digest(gogu.Pluck(ms, w))
+		case 8:
+			ms := []map[int]int{m, {1: 2}, parMap(w+1, 30)}
+			return pbt.Digest(gogu.FilterMapCollection(ms, func(v int) bool { return v == 88 }))
+		default:
+			ks, vs := make([]int, size), make([]int, size)
+			for i := range ks {
+				ks[i], vs[i] = i%(size/2+1), i+w
+			}
+			return pbt.Digest(gogu.SliceToMap(ks, vs))
+		}
+	}
+	if err := pbt.Concurrently(workers, 4, f); err != nil {
+		return fmt.Errorf("%s on maps of about %d entries: %v", parNames[h], size, err)
+	}
+	r.NonTrivial()
+	r.Label(parNames[h])
+	return nil
+}
+
 func TestProp(t *testing.T) {
 	pbt.Run(t, "C14",
 		&pbt.Check[ValPredCase]{
@@ -1529,6 +1612,14 @@ func TestProp(t *testing.T) {
 				"random: up to 5 items of up to 5 inner maps of up to 6 pairs. Non-trivial = at least one item is kept. " + scopeRuns,
 			Enum: filter2DEnum, Gen: filter2DGen, Prop: filter2DProp, OutOfEnum: filter2DOutside,
 			RapidQuick: 300, RapidThorough: 6000,
+		},
+		&pbt.Check[ParCase]{
+			Name: "parallel",
+			Rule: "the map helpers are pure functions: 2..8 goroutines call one of Find, Keys+Values, FilterMap, PickBy+OmitBy, Invert, MapValues, MapKeys, Pluck, FilterMapCollection, SliceToMap at the same time (real scheduler), each on maps of its own of 16..3000 entries, four times; every answer (rendered in key order) must equal the answer of the same call running alone. Non-trivial = every case.",
+			Gen:        func(s pbt.Src, _ bool) ParCase { return ParCase{H: s.Intn(len(parNames)), Size: pbt.Pick(s, 50, 500, 3000), W: s.Intn(7)} },
+			Prop:       parProp,
+			OutOfEnum:  func(ParCase, bool) bool { return true },
+			RapidQuick: 10, RapidThorough: 120,
 		},
 	)
 }
